@@ -68,6 +68,48 @@ pub fn structured(n: usize, r: &mut StdRng) -> Vec<Vec<usize>> {
         let rest = random_on(n, r);
         out.push(on_from_fn(n, |m| m / 64 < k || rest.binary_search(&m).is_ok()));
     }
+    // --- families added after the seeded-change rounds (each was the trigger of some change) ---
+    if n >= 1 {
+        // a function of fewer variables padded with dummy variables
+        let m = r.gen_range(0..n);
+        let g = random_on(m, r);
+        out.push(on_from_fn(n, |x| g.binary_search(&(x & (dom(m) - 1))).is_ok()));
+        // all the action in one half of the table: x_top & g, !x_top & g
+        let g = random_on(n - 1, r);
+        out.push(on_from_fn(n, |x| (x >> (n - 1)) & 1 == 1 && g.binary_search(&(x & (dom(n - 1) - 1))).is_ok()));
+        out.push(on_from_fn(n, |x| (x >> (n - 1)) & 1 == 0 && g.binary_search(&(x & (dom(n - 1) - 1))).is_ok()));
+        // totally symmetric up to input polarity
+        let c: u64 = r.gen();
+        let pol: usize = r.gen_range(0..d);
+        out.push(on_from_fn(n, |x| (c >> ((x ^ pol).count_ones())) & 1 == 1));
+    }
+    if n >= 2 {
+        // a literal pair embedded in n variables; a three-variable mux on spread-out variables
+        let i = r.gen_range(0..n);
+        let j = (i + 1 + r.gen_range(0..n - 1)) % n;
+        out.push(on_from_fn(n, |x| (x >> i) & 1 == 1 && (x >> j) & 1 == 0));
+        let k = (j + 1) % n;
+        out.push(on_from_fn(n, |x| if (x >> (n - 1)) & 1 == 1 { (x >> i) & 1 == 1 } else { (x >> k) & 1 == 1 }));
+    }
+    if d > 128 {
+        // non-zero only in some 64-bit blocks: last, first, one in the middle, upper half, all but the first
+        let nbk = d / 64;
+        let rnd = random_on(n, r);
+        let keep = |lo: usize, hi: usize| -> Vec<usize> { rnd.iter().cloned().filter(|&m| m / 64 >= lo && m / 64 < hi).collect() };
+        out.push(keep(nbk - 1, nbk));
+        out.push(keep(0, 1));
+        out.push(keep(nbk / 2, nbk / 2 + 1));
+        out.push(keep(nbk / 2, nbk));
+        out.push(keep(1, nbk));
+        // the complement of a block-sparse table (all-ones blocks)
+        let ks = keep(0, 1);
+        out.push(on_from_fn(n, |x| ks.binary_search(&x).is_err()));
+        // x_a & (x_b ^ x_c) with a, b at or above the word boundary
+        let a = r.gen_range(6..n);
+        let b = 6 + (a - 6 + 1) % (n - 6).max(1);
+        let c = r.gen_range(0..6);
+        out.push(on_from_fn(n, |x| (x >> a) & 1 == 1 && (((x >> b) & 1) ^ ((x >> c) & 1)) == 1));
+    }
     out.push(random_on(n, r));
     out.push(random_on(n, r));
     out.push(sparse_on(n, r, 3));
